@@ -761,6 +761,7 @@ pub fn run_property(def: &PropDef, tier: Tier, seed: u64, verif_dir: PathBuf) ->
     let ctx = RunCtx::new(def.id, tier, seed, verif_dir.clone());
     let mut violations = 0;
     let mut known_lines = vec![];
+    let mut findings_replayed = 0u64;
 
     // 1. committed findings of this property
     for k in ctx.known.iter().filter(|k| k.applies_to(def.id)) {
@@ -789,6 +790,7 @@ pub fn run_property(def: &PropDef, tier: Tier, seed: u64, verif_dir: PathBuf) ->
             .map(|d| d.replay)
             .unwrap_or(def.replay);
         let r = catch(|| replay_fn(&v)).unwrap_or_else(|p| Err(format!("harness panic in replay: {}", p)));
+        findings_replayed += 1;
         match (k.status.as_str(), r) {
             ("known", Err(_)) => {
                 println!("KNOWN-FINDING: property={} {} [{}]", def.id, k.what, k.id);
@@ -877,7 +879,9 @@ pub fn run_property(def: &PropDef, tier: Tier, seed: u64, verif_dir: PathBuf) ->
         "seed": seed,
         "level": "exploration",
         "coverage": {
-            "evaluations": st.evaluations,
+            // oracle evaluations: generated / enumerated cases + replayed findings and regression seeds
+            "evaluations": st.evaluations + findings_replayed + regress as u64,
+            "findings_replayed": findings_replayed,
             "distinct_nontrivial": st.nontrivial.len(),
             "rule": def.rule,
             "samples": samples,
